@@ -29,6 +29,7 @@ ap.add_argument("--skip-suite", action="store_true")
 ap.add_argument("--checks", default="")
 ap.add_argument("--thorough", action="store_true")
 ap.add_argument("--runs", type=int, default=2)
+ap.add_argument("--agent-wt", default="")
 a = ap.parse_args()
 name = a.name or a.prop
 ENV = dict(os.environ, GOPROXY="off", GOSUMDB="off", GOTOOLCHAIN="local")
@@ -64,7 +65,7 @@ try:
     nontest = [l for l in sh("git diff --name-only", cwd=wt)[1].split() if not l.endswith("_test.go")]
     res["changed_files"] = nontest
     # ---- demonstration files: untracked files of the agent's worktree
-    agent_wt = "/tmp/seed/" + a.prop
+    agent_wt = a.agent_wt or ("/tmp/seed/" + a.prop)
     demos = []
     if os.path.isdir(agent_wt):
         rc, out = sh("git status --short --untracked-files=all", cwd=agent_wt)
